@@ -103,6 +103,13 @@ class Sys04(c05.Sys05):
             st.add_ili([dict(ili=a, status=b, definition=c) for a, b, c in universe.ILI_ROWS])
         return st
 
+    def chain_events(self, m, ev, m2):
+        """after a removal that changed something: add, in the same process, one lexicon that is not installed -
+        it re-uses the freed rowid - and check the state reached (membership, scoped transcripts)"""
+        if ev[0] != 'remove' or self.annot:
+            return []
+        return [['add', a] for a in ('B1', 'A2', 'C1') if c05.universe.SPEC[a] not in m2['inst']][:1]
+
     def check_state(self, m, pre, hist):
         V, data = [], {}
         inst = m['inst']
